@@ -77,6 +77,7 @@ class Norm:
         self.closure_depth = {}
         self.effects = {}    # local id -> [(node, kind)] ordered
         self.syms = dict(syms or {})
+        self.closure_src = {}   # closure def -> (adaptor short name, receiver/first-arg node)
         self._memo = {}
         self._busy = set()
         for i, p in enumerate(body.get("params", [])):
@@ -183,6 +184,10 @@ class Norm:
                         self.effects.setdefault(lid, []).append((n, "mutarg:%d" % i, guards))
         elif k == "MethodCall":
             recv = n["recv"]
+            for a in n["args"]:
+                a2 = strip(a)
+                if isinstance(a2, dict) and a2.get("k") == "Closure":
+                    self.closure_src[a2["def"]] = (cshort(n.get("callee", n["name"])), recv)
             adj = recv.get("adj") or recv.get("ty", "")
             if adj.startswith("&mut ") or recv.get("ty", "").startswith("&mut "):
                 lid = _root_local(recv)
@@ -503,6 +508,8 @@ class Norm:
             c = self._t(e["cond"])
             t = self._t(e["then"])
             el = self._t(e["else"]) if "else" in e else ("lit", "()")
+            if _diverges(t) and _is_unit(el):
+                return ("early", [(c, t)], ("lit", "()"))
             return ("if", c, t, el)
         if k == "Let":
             return ("iflet", pat_repr(e["pat"]), self._t(e["init"]))
